@@ -573,6 +573,7 @@ pub fn generate(prop: &str, family: &str, seed: u64) -> RunDesc {
         "ebr" => gen_interp_run(prop, family, seed, Profile::Ebr),
         "ebr-churn" => crate::fam_ebr::gen_churn(prop, seed),
         "ebr-longcs" => crate::fam_ebr::gen_longcs(prop, seed),
+        "ebr-private" => crate::fam_ebr::gen_private(prop, seed),
         "guards" => gen_interp_run(prop, family, seed, Profile::Guards),
         "tls" => gen_interp_run(prop, family, seed, Profile::Tls),
         "dir-t1" => crate::dir::t1(prop, seed),
